@@ -143,7 +143,11 @@ func (c *Chain) commitConcrete(sym string) string {
 	parts := strings.Split(sym, "|")
 	for i, p := range parts {
 		if strings.HasSuffix(p, "~") {
-			parts[i] = c.dataConcrete(strings.TrimSuffix(p, "~"))[:8]
+			full := c.dataConcrete(strings.TrimSuffix(p, "~"))
+			if len(full) > 8 {
+				full = full[:8]
+			}
+			parts[i] = full
 		} else {
 			parts[i] = c.dataConcrete(p)
 		}
